@@ -55,7 +55,7 @@ def plan(tier, seed):
 def floors(tier):
     return {"distinct_nontrivial": 400, "cls:sel:elem": 500, "cls:sel:parent_elem": 500, "cls:sel:elem_parent": 300,
             "cls:cond:none": 200, "cls:cond:elem": 200, "cls:cond:parent": 200, "cls:cond:both": 200, "cls:cond:join": 200, "cls:cond:elem_or": 200, "cls:cond:elem_stacked": 200, "cls:cond:elem_and": 200, "cls:cond:elem_not": 200,
-            "cls:scalar": 200, "cls:has_empty_list": 500, "cls:has_repeated_element": 500, "re:Flatten(@.*)?\\.enter": 2000}
+            "cls:scalar": 200, "cls:plain_scalar_value": 60, "cls:has_empty_list": 500, "cls:has_repeated_element": 500, "re:Flatten(@.*)?\\.enter": 2000}
 
 
 def gen_world(rng):
@@ -66,6 +66,13 @@ def gen_world(rng):
 
 
 def gen_case(rng):
+    if rng.random() < 0.08:
+        # the flattened expression is a plain scalar, also a falsy one: it still counts as a single element
+        w = gen_world(rng)
+        for p in w["parents"]:
+            p["one"] = ["s", rng.choice([0, None, "", False, 7, "z"])]
+        return {"world": w, "sel": rng.choice(["elem", "parent_elem", "elem_parent"]), "cond": rng.choice(["none", "parent"]),
+                "thr": 1, "kthr": rng.randint(0, 3), "thr2": 1, "scalar": True, "plain_scalar": True, "caching": rng.random() < 0.7}
     return {"world": gen_world(rng), "sel": rng.choice(["elem", "parent_elem", "parent_elem", "elem_parent"]),
             "cond": rng.choice(["none", "elem", "parent", "both", "join", "elem_or", "elem_stacked", "elem_and", "elem_not"]),
             "thr": rng.randint(1, 4), "kthr": rng.randint(0, 3), "thr2": rng.randint(1, 5),
@@ -79,7 +86,7 @@ def cases(spec, ctx):
 
 def build_world(w):
     es = [E(i + 1) for i in range(5)]
-    ps = [Par(p["k"], [es[i] for i in p["items"]], es[p["one"]]) for p in w["parents"]]
+    ps = [Par(p["k"], [es[i] for i in p["items"]], p["one"][1] if isinstance(p["one"], list) else es[p["one"]]) for p in w["parents"]]
     return es, ps
 
 
@@ -107,8 +114,8 @@ def expected(case, es, ps):
                 # joined with d over es[:3]: e == d  -> element must be one of the first three element objects
                 ok = any(x is d for d in es[:3])
             if ok:
-                xi = es.index(x)
-                out.append({"elem": (f"E{xi}",), "parent_elem": (f"Par{pi}", f"E{xi}"), "elem_parent": (f"E{xi}", f"Par{pi}")}[case["sel"]])
+                xl = f"E{es.index(x)}" if isinstance(x, E) else "scalar:" + repr(x)
+                out.append({"elem": (xl,), "parent_elem": (f"Par{pi}", xl), "elem_parent": (xl, f"Par{pi}")}[case["sel"]])
     return out
 
 
@@ -148,15 +155,18 @@ def run(case, es, ps, caching, times=1):
             else:
                 q = an(set_of([e, p], *conds))
         outs = []
+
+        def el(v):
+            return lab[id(v)] if id(v) in lab else "scalar:" + repr(v)
         for _ in range(times):
             rows = []
             for r in q.evaluate():
                 if case["sel"] == "elem":
-                    rows.append((lab.get(id(r), f"?{type(r).__name__}"),))
+                    rows.append((el(r),))
                 elif case["sel"] == "parent_elem":
-                    rows.append((lab.get(id(r[p]), "?"), lab.get(id(r[e]), "?")))
+                    rows.append((lab.get(id(r[p]), "?"), el(r[e])))
                 else:
-                    rows.append((lab.get(id(r[e]), "?"), lab.get(id(r[p]), "?")))
+                    rows.append((el(r[e]), lab.get(id(r[p]), "?")))
             outs.append(rows)
         return outs
     finally:
@@ -176,6 +186,8 @@ def check_case(case, ctx):
     ctx.cls("cls:caching_on" if case["caching"] else "cls:caching_off")
     if case["scalar"]:
         ctx.cls("cls:scalar")
+    if case.get("plain_scalar"):
+        ctx.cls("cls:plain_scalar_value")
     lists = [tuple(p["items"]) for p in case["world"]["parents"]]
     if any(len(l) == 0 for l in lists):
         ctx.cls("cls:has_empty_list")
